@@ -129,11 +129,14 @@ func (hs *ssDHClientHandshake) parseServerHandshake(resp []byte) (int, []byte, e
 			return 0, nil, ErrInvalidHandshake
 		}
 		return 0, nil, errMarkNotFoundYet
-	} else if len(resp) < pos+2*macLength {
-		// Didn't receive the full M_S.
+	}
+	// The index is relative to the end of the public key, fix that up
+	// before checking how much of the response has arrived.
+	pos += uniformdh.Size
+	if len(resp) < pos+2*macLength {
+		// Didn't receive the full M_S | MAC_S.
 		return 0, nil, errMarkNotFoundYet
 	}
-	pos += uniformdh.Size
 
 	// Validate the MAC.
 	_, _ = hs.mac.Write(resp[uniformdh.Size : pos+macLength])
